@@ -201,9 +201,15 @@ func c02GenNode(t *rapid.T, mode string) c02Node {
 		v.OtherZone = i > 0 && rapid.IntRange(0, 5).Draw(t, "otherzone") == 0
 		n.VSw = append(n.VSw, v)
 	}
-	if mode == "C08" && rapid.IntRange(0, 2).Draw(t, "ample") > 0 {
-		for i := range n.VSw {
-			n.VSw[i].Free = 500
+	if mode == "C08" {
+		switch rapid.IntRange(0, 2).Draw(t, "ample") {
+		case 1: // every option has plenty of addresses
+			for i := range n.VSw {
+				n.VSw[i].Free = 500
+			}
+		case 2: // one option of the zone has plenty, the others are as drawn (exhausted, nearly exhausted, ...)
+			k := rapid.IntRange(0, len(n.VSw)-1).Draw(t, "amplevsw")
+			n.VSw[k].Free, n.VSw[k].OtherZone = 500, false
 		}
 	}
 	n.Policy = rapid.SampledFrom([]string{"ordered", "random", "most"}).Draw(t, "policy")
@@ -449,6 +455,7 @@ type c02World struct {
 	overDemand                                    int // settle rounds in which addresses were requested although enough were idle
 	inSettle                                      bool
 	writeLost                                     bool              // a record write failed and no later pass has persisted a full sync yet
+	efloCollisionENI                              map[string]bool   // ... per interface
 	efloCollision                                 bool              // a half-created EFLO address was answered while the record already held one under the empty key
 	drifted                                       map[string]string // addresses removed in the cloud out of band (addr -> interface) since the last persisted full sync
 	failedWrites                                  int               // 1 if the latest pass whose record write failed had changed the cloud (the controller then must resync)
@@ -1000,7 +1007,13 @@ func c02CheckRecord(prev, cur map[string]*networkv1beta1.NetworkInterface, pods 
 	}
 	for _, b := range c02Bindings(cur) {
 		key := c02Fam(b.v6) + "|" + b.addr
-		// (i) an address is one entry of the record
+		// (i) an address is one entry of the record. The entry with the empty key is not an
+		// address: it is the placeholder the controller keeps for an EFLO IPName whose
+		// assignment did not complete (assignIP, "partial result"), one per interface.
+		if b.addr == "" && b.pod == "" {
+			facts["eflo_placeholder"] = true
+			continue
+		}
 		if o, ok := where[key]; ok {
 			return fmt.Sprintf("(i) address %s is recorded on two interfaces: %s and %s", b.addr, o, b.eni), facts
 		}
